@@ -313,6 +313,51 @@ func init() {
 	})
 }
 
+const pkgCheck = "github.com/ory/keto/internal/check"
+
+var handlerOverrides = map[string]string{
+	"(*github.com/ory/keto/internal/driver/config.Config).MaxReadDepth":                   "verifHCfgMaxReadDepth",
+	"(*github.com/ory/keto/internal/driver/config.Config).MaxReadWidth":                   "verifHCfgMaxReadWidth",
+	"(*github.com/ory/keto/internal/driver/config.Config).StrictMode":                     "verifHCfgStrictMode",
+	"(*github.com/ory/keto/internal/driver/config.Config).BatchCheckParallelizationLimit": "verifHCfgBatchLimit",
+	"(*github.com/ory/keto/internal/driver/config.Config).BatchCheckMaxBatchSize":         "verifHCfgMaxBatchSize",
+	"(*github.com/ory/keto/internal/driver/config.Config).NamespaceManager":               "verifHCfgNamespaceManager",
+	"(*github.com/ory/keto/internal/check.Engine).CheckRelationTuple":                     "verifChk",
+	"(*encoding/json.Decoder).Decode":                                                     "verifJSONDecode",
+	"(*net/url.URL).Query":                                                                "verifURLQuery",
+}
+
+func init() {
+	register(&Property{
+		ID:          "C13",
+		Patterns:    append([]string{pkgRts}, enginePatterns...),
+		HarnessDirs: []string{"internal/check"},
+		Assumptions: []string{"request values are arbitrary inhabitants of the request types (every optional pointer nil or not, repeated fields of length 0..limit+1, JSON arrays may hold null elements, numbers fully symbolic, names from pools of known/unknown namespaces and opaque strings)", "JSON decoding stubbed as 'arbitrary value of the static type or an error'", "engine core summarised by an uninterpreted function (fresh symbolic result per distinct argument tuple)", "status of an error computed as herodot does (first StatusCodeCarrier in the chain, else 500)"},
+		Outside:     []string{"HTTP parsing, routers, middleware, protobuf and JSON wire decoding"},
+		Runs: func(tier string) []Run {
+			a := Run{Name: "check-grpc", Pkg: pkgCheck, Harness: "HarnessC13CheckGRPC", Params: map[string]int64{"batch": pick(tier, 1, 2), "depths": pick(tier, 0, 1)}, Overrides: handlerOverrides, Reach: []string{"c13.grpc.check", "c13.grpc.batch"}}
+			b := Run{Name: "check-rest", Pkg: pkgCheck, Harness: "HarnessC13CheckREST", Params: map[string]int64{"batch": pick(tier, 1, 2), "depths": pick(tier, 0, 1)}, Overrides: handlerOverrides, Reach: []string{"c13.rest.get", "c13.rest.post", "c13.rest.batch"}}
+			return []Run{a, b}
+		},
+	})
+}
+
+func init() {
+	register(&Property{
+		ID:          "C08",
+		Patterns:    append([]string{pkgRts}, enginePatterns...),
+		HarnessDirs: []string{"internal/check"},
+		NoReplay:    map[string]string{"HarnessC08Single": "the engine core is an uninterpreted function in this harness; natively the real engine answers", "HarnessC08Batch": "the engine core is an uninterpreted function in this harness; natively the real engine answers"},
+		Assumptions: []string{"engine core summarised by an uninterpreted function: one fresh symbolic (membership, error) per distinct (mapped tuple, depth), so the statement holds for every possible engine behaviour", "JSON decoding stubbed; herodot writer replaced by a capturing writer; (*url.URL).Query and (*http.Request).Context stubbed", "names: opaque symbolic strings; namespaces from {N known, X unknown}"},
+		Outside:     []string{"HTTP routing and middleware, JSON/protobuf wire formats", "batches larger than 2"},
+		Runs: func(tier string) []Run {
+			a := Run{Name: "single", Pkg: pkgCheck, Harness: "HarnessC08Single", Params: map[string]int64{"depths": 0}, Overrides: handlerOverrides, Reach: []string{"c08.single"}}
+			b := Run{Name: "batch", Pkg: pkgCheck, Harness: "HarnessC08Batch", Params: map[string]int64{"depths": 0}, Overrides: handlerOverrides, Reach: []string{"c08.batch"}}
+			return []Run{a, b}
+		},
+	})
+}
+
 func itoa(n int64) string {
 	s := ""
 	if n == 0 {
